@@ -114,7 +114,7 @@ pub fn macro_body(p: &Prog) -> String {
             }
             1 => {
                 if let Some(x) = &o.joiner {
-                    s.push_str(&format!("custom_joiner({})\n        ", x));
+                    s.push_str(&format!("custom_joiner(jvrt::{}!)\n        ", x));
                 }
             }
             2 => {
@@ -251,7 +251,7 @@ pub fn case_fn(p: &Prog, idx: usize) -> String {
 }
 
 pub fn file_header() -> &'static str {
-    "#![allow(unused_imports, unused_variables, unused_mut, unused_parens, unused_braces, dead_code)]\n#![recursion_limit = \"1024\"]\nuse jvrt::cb::Wv;\nuse jvrt::runner::{Case, CaseFn};\nuse jvrt::sem::{Out, Val};\nuse futures::future::LocalBoxFuture;\n\n"
+    "#![allow(unused_imports, unused_variables, unused_mut, unused_parens, unused_braces, dead_code)]\n#![recursion_limit = \"1024\"]\nuse jvrt::cb::Wv;\nuse jvrt::runner::{Case, CaseFn};\nuse jvrt::sem::{Out, Val};\nuse jvrt::fx::future::LocalBoxFuture;\n\n"
 }
 
 pub fn escape_str(s: &str) -> String {
